@@ -56,8 +56,8 @@ class DocstringParser(AbstractDocstringParser):
     def get_class_documentation(self, class_node: nodes.ClassDef) -> ClassDocstring:
         griffe_node = self._get_griffe_node(class_node.fullname)
 
-        if griffe_node is None:  # pragma: no cover
-            raise TypeError(f"Expected a griffe node for {class_node.fullname}, got None.")
+        if griffe_node is None:
+            return ClassDocstring()
 
         description = ""
         docstring = ""
@@ -411,11 +411,15 @@ class DocstringParser(AbstractDocstringParser):
                 griffe_node = griffe_node.attributes[part]
             elif part == "__init__" and griffe_node.is_class:
                 return None
-            else:  # pragma: no cover
-                raise ValueError(
-                    f"Something went wrong while searching for the docstring for {qname}. Please make sure"
-                    " that all directories with python files have an __init__.py file.",
+            else:
+                # Griffe could not provide this element, e.g. because it failed to parse the file. We continue without
+                # the documentation of the element instead of stopping the whole run.
+                msg = (
+                    f"Could not find the docstring for {qname}. Please make sure that all directories with python files"
+                    " have an __init__.py file."
                 )
+                logging.warning(msg)
+                return None
 
         return griffe_node
 
